@@ -408,6 +408,95 @@ theorem C19_gauge_zero_at_quiescence (N : Nat) (ts : Nat → List Ev) (hreq : Re
     rw [he, C19_request_discipline sel out eps]
   rw [hz, sumTo_zero]; simp
 
+
+/-! ### The collector's clean-up pass never touches a gauge that is in use
+
+`Collector.cleanup` deletes per-endpoint entries that were not used for `EndpointTTL`.  With the
+in-flight guard the pass is invisible to the gauge: whatever history of attempt events and clean-up
+passes, at whatever times, the reported gauge is the gauge of the attempt events alone — so the
+theorems above hold for processes of any age.  Without the guard (pinned tree) an endpoint that was
+idle for the TTL loses its gauge while attempts are in flight (witness). -/
+
+private theorem reported_setEntry (st : CState) (e' e : Nat) (en : Entry) :
+    reported (setEntry st e' en) e = if e = e' then en.gauge else reported st e := by
+  unfold reported setEntry
+  by_cases h : e = e' <;> simp [h]
+
+private theorem entryOf_gauge (st : CState) (e : Nat) (t : Int) : (entryOf st e t).gauge = reported st e := by
+  unfold entryOf reported
+  cases st.get e <;> rfl
+
+private theorem sweep_reported_fixed (ttl : Int) (st : CState) (t : Int) (e : Nat) :
+    reported (cstep .keepInFlight ttl st (.sweep t)) e = reported st e := by
+  show (match (match st.get e with
+      | some en => if droppable .keepInFlight ttl en t then none else some en
+      | none => none) with | some en => en.gauge | none => 0) = (match st.get e with | some en => en.gauge | none => 0)
+  cases st.get e with
+  | none => rfl
+  | some en =>
+    by_cases hd : droppable .keepInFlight ttl en t = true
+    · simp only [hd, if_true]
+      unfold droppable at hd
+      simp only [Bool.and_eq_true, beq_iff_eq] at hd
+      exact hd.2.symm
+    · simp only [hd]
+      rfl
+
+/-- **A guarded clean-up pass is invisible to every gauge.** -/
+theorem C19_cleanup_invisible_fixed (ttl : Int) : ∀ (l : List CEv) (st : CState) (e : Nat),
+    reported (runC .keepInFlight ttl st l) e = gauge e (evsOf l) (reported st e)
+  | [], _, _ => rfl
+  | .sweep t :: rest, st, e => by
+    simp only [runC, evsOf]
+    rw [C19_cleanup_invisible_fixed ttl rest _ e, sweep_reported_fixed]
+  | .ev x t :: rest, st, e => by
+    simp only [runC, evsOf]
+    rw [C19_cleanup_invisible_fixed ttl rest _ e]
+    cases x with
+    | inc e' =>
+      simp only [cstep, gauge, reported_setEntry, entryOf_gauge]
+      by_cases h : e = e'
+      · subst h; simp
+      · have h' : ¬ e' = e := fun hh => h hh.symm
+        simp [h, h']
+    | dec e' =>
+      simp only [cstep, gauge, reported_setEntry, entryOf_gauge]
+      by_cases h : e = e'
+      · subst h; simp
+      · have h' : ¬ e' = e := fun hh => h hh.symm
+        simp [h, h']
+    | recSuccess e' =>
+      simp only [cstep, gauge, reported_setEntry, entryOf_gauge]
+      by_cases h : e = e'
+      · subst h; simp
+      · simp [h]
+    | recFailure e' =>
+      simp only [cstep, gauge, reported_setEntry, entryOf_gauge]
+      by_cases h : e = e'
+      · subst h; simp
+      · simp [h]
+    | _ => simp only [cstep, gauge]
+
+/-- **The gauge equals the attempts in flight, clean-up included**: any history whose attempt events are a
+    prefix of an interleaving of `N` requests, with clean-up passes anywhere in between, reports for every
+    endpoint exactly the number of attempts open on it. -/
+theorem C19_gauge_eq_inflight_with_cleanup (N : Nat) (ts : Nat → List Ev) (hreq : Requests N ts) (tr : List Ev)
+    (h : Interleaving N ts tr) (e : Nat) (k : Nat) (ttl : Int) (l : List CEv) (hl : evsOf l = tr.take k) :
+    ∃ ps, Interleaving N ps (tr.take k) ∧ (∀ i, ps i <+: ts i) ∧
+      gaugeMatches (reported (runC .keepInFlight ttl CState.empty l) e) (sumTo (fun i => inFlight e (ps i)) N : Nat) = true := by
+  obtain ⟨ps, h1, h2, h3⟩ := C19_gauge_eq_inflight N ts hreq tr h e k
+  refine ⟨ps, h1, h2, ?_⟩
+  rw [C19_cleanup_invisible_fixed, hl]
+  exact h3
+
+/-- The pinned pass: endpoint 0 serves a request, is idle for 61 minutes (TTL: 60), a new attempt is in
+    flight on it when the pass runs — its gauge reads 0 with one attempt in flight. -/
+theorem C19_cleanup_drops_inflight_gauge_witness :
+    let hist : List CEv := [.ev (.inc 0) 0, .ev (.recSuccess 0) 0, .ev (.dec 0) 0, .ev (.inc 0) 3660000000000, .sweep 3660000000000]
+    reported (runC .dropIdle 3600000000000 CState.empty hist) 0 = 0 ∧ gauge 0 (evsOf hist) 0 = 1 ∧
+    reported (runC .keepInFlight 3600000000000 CState.empty hist) 0 = 1 := by
+  decide
+
 /-! ### Every attempt is recorded exactly once — globally -/
 
 private def pend : Phase → Nat
